@@ -208,6 +208,7 @@ def make_wrapper(
                     entry_point = self.changes_count()
                     try:
                         list(map(self._configurable.remove, vals))
+                        object.__setattr__(self, "_reuse_pt", self._reuse_pt + 1)
                         return True
                     except Unchangable:
                         self.rollback(entry_point)
